@@ -463,6 +463,7 @@ func gen(r *rand.Rand, tier string, n int) []any {
 		prevMin := int64(0)
 		gmax := int64(0)
 		okc := true
+		var prevTs []int64
 		// sizes: Coq reads the observed data slowly, so most cases are just big enough
 		// to produce 2-3 output chunks (the count aggregate is cut every 120 samples)
 		shape := r.Intn(20)
@@ -496,10 +497,15 @@ func gen(r *rand.Rand, tier string, n int) []any {
 					break
 				}
 				start = prevMin + 1 + r.Int63n(span)
-				if r.Intn(3) == 0 { // typical replica: same resolution, small phase shift
+				switch r.Intn(3) {
+				case 0: // typical replica: same resolution, small phase shift
 					start = prevMin + 1 + r.Int63n(res)
 					if start > gmax {
 						start = gmax
+					}
+				case 1: // same grid: timestamps coincide with the previous chunk's (ties between replicas)
+					if len(prevTs) > 1 {
+						start = prevTs[1+r.Intn(len(prevTs)-1)]
 					}
 				}
 			}
@@ -514,6 +520,7 @@ func gen(r *rand.Rand, tier string, n int) []any {
 			}
 			in.Chunks = append(in.Chunks, mkChunk(r, tsx))
 			prevMin = start
+			prevTs = tsx
 			if tsx[len(tsx)-1] > gmax {
 				gmax = tsx[len(tsx)-1]
 			}
